@@ -11,6 +11,9 @@ Ops (one output line each):
 * `pub <topic> <n>`       `hub.publish(topic, json!(n))`                                       → `ok`
 * `recv <conn>`           `push_rx.try_recv()` → `-` | `gone` | `method=<m> sid=sub-<k> data=<n>`
 * `close <conn>`          drop `push_rx`                                                       → `ok` | `gone`
+* `racepub <topic> <n> <k>` publish and `unsubscribe("sub-<k>")` as two concurrent tasks     → `ok removed=<0|1>`
+* `subn <conn> <topic> <c>` `c` subscribes in a row                                           → `first:id=.. last:id=..`
+* `par <nsubs> <rounds>`  publisher thread vs. unsubscribing thread on a private hub (monitor) → `ok`
 * `len`                   `hub.len()`                                                          → `len=<n>`
 -/
 namespace Srtla.Drv.Hub
@@ -64,6 +67,33 @@ def step (s : St) (toks : List String) : St × String :=
     match n.toNat? with
     | some n => if validTopic topic then run s (.pub topic n) else (s, "bad-op")
     | none => (s, "bad-op")
+  | ["racepub", topic, n, k] =>
+    -- publish and unsubscribe as concurrent tasks (publish first): with an atomic publish this is
+    -- `pub` then `unsub`
+    match n.toNat?, k.toNat? with
+    | some n, some k =>
+      if validTopic topic then
+        let r1 := run s (.pub topic n)
+        let r2 := run r1.1 (.unsub k)
+        (r2.1, r1.2 ++ " " ++ r2.2)
+      else (s, "bad-op")
+    | _, _ => (s, "bad-op")
+  | ["subn", c, topic, count] =>
+    match c.toNat?, count.toNat? with
+    | some c, some count =>
+      if c < s.conns && validTopic topic && count ≠ 0 && count ≤ 1000 then
+        let r := (List.range count).foldl
+          (fun (acc : St × String × String) i =>
+            let r := run acc.1 (.sub topic c)
+            (r.1, (if i = 0 then r.2 else acc.2.1), r.2)) (s, "", "")
+        (r.1, s!"first:{r.2.1} last:{r.2.2}")
+      else (s, "bad-op")
+    | _, _ => (s, "bad-op")
+  | ["par", nsubs, rounds] =>
+    -- real-parallelism probe on a private hub: monitor only, no state change
+    match nsubs.toNat?, rounds.toNat? with
+    | some a, some b => if a = 0 || a > 1024 || b = 0 || b > 100000 then (s, "bad-op") else (s, "ok")
+    | _, _ => (s, "bad-op")
   | ["recv", c] =>
     match c.toNat? with
     | some c => if c < s.conns then run s (.recv c) else (s, "bad-op")
